@@ -646,6 +646,31 @@ def child_ops(scn, addr, tgt, parent, rng):
     return ops
 
 
+def ro_file_in_rw_dir_ops(scn, addr, tgt, parent, rng):
+    """Content-changing requests to a mutable file that its (writeable) parent links by read cap only."""
+    U = addr.url
+    name = addr.path[-1]
+    PU = "/uri/" + q(addr.cap) + "".join("/" + q(p) for p in addr.path[:-1])
+    data = (b"overwrite %d " % rng.randrange(10 ** 6)) * rng.choice([1, 8])      # LIT-sized and CHK-sized bodies
+    ops = []
+
+    def add(key, meth, url, body=b"", headers=(), **m):
+        ops.append({"key": key, "http": (meth, url, body, headers), "model": m, "modifying": True, "watch": parent, "meth": meth})
+    cls = "FileNodeHandler"
+    add((cls, "PUT", ""), "PUT", U, data, t="")
+    add((cls, "PUT", ""), "PUT", U + "?offset=%d" % rng.choice([0, 3]), data, t="", offset=True)
+    for fmtq in ("", "&format=" + rng.choice(["chk", "sdmf", "mdmf"])):
+        mf = fmtq.endswith(("sdmf", "mdmf"))
+        body, ct = multipart([("file", data, "form.bin")])
+        add((cls, "POST", "upload"), "POST", U + "?t=upload" + fmtq, body, (ct,), t="upload", mutable_format=mf)
+        body, ct = multipart([("file", data, "form2.bin")])
+        # the same through the directory: POST $DIR?t=upload&name=<child> renders the child's handler
+        ops.append({"key": ("DirectoryNodeHandler", "POST", "upload"), "meth": "POST", "modifying": True, "watch": parent,
+                    "http": ("POST", PU + "?t=upload&name=" + q(name) + fmtq, body, (ct,)),
+                    "model": {"t": "upload", "name": name, "mutable_format": mf}, "addr": Addr(scn, addr.cap, addr.path[:-1], addr.kind)})
+    return ops
+
+
 STATUS_CODES = {400: [11, 16, 18], 404: [14], 409: [15], 405: [17], 501: [17], 500: [10, 12, 13, 16]}
 
 
@@ -833,9 +858,15 @@ def scenario(run, si):
                 ops += child_ops(scn, addr, o, None, r2)
             if quick and addr.kind == "path-from-ro-root" and len(addr.path) >= 2:
                 ops = [op for op in ops if r2.random() < 0.35]
+            if parent is not None and pw and o.kind == "file" and o.mutable and not scn.writeable(o, a):
+                # a WRITEABLE directory holding only a READ cap of a mutable file: requests that would change the
+                # file's contents are addressed to the file through a read-only cap and must be refused (replacing
+                # the link itself -- PUT t=uri, DELETE -- is the parent's business and is exercised in phase B)
+                ops += ro_file_in_rw_dir_ops(scn, addr, o, parent, r2)
             for op in ops:
                 pres = presented + ([op["model"]["to_dir"]] if op["model"].get("to_dir") else [])
-                do_request(run, scn, si, addr, op, pres, False, tdesc)
+                do_request(run, scn, si, op.get("addr", addr), op, pres, False,
+                           tdesc + ("/read-only-link-in-writeable-directory" if op.get("addr") or (pw and parent is not None and o.kind == "file") else ""))
             if not scn.writeable(o, a) and (not quick or r2.random() < 0.6 or len(addr.path) <= 1):
                 leak_gets(run, scn, si, addr, o, a, presented)
         # /file/<cap>: GET and HEAD only
@@ -1009,10 +1040,10 @@ def _run(ctx):
         ctx.mismatch("dispatch-table-not-extractable", "the dispatch table cannot be regenerated: %s" % e,
                      correspondence="dispatch-table-vs-driver-cases")
     r = Run(ctx)
-    nscen = ctx.n(3, 8)
+    nscen = ctx.n(2, 8)
     for si in range(nscen):
         scenario(r, si)
-        if ctx.tier == "quick" and not ctx.search and ctx.elapsed() > 40:
+        if ctx.tier == "quick" and not ctx.search and ctx.elapsed() > 25:
             break
     # every entry of the regenerated table was exercised (URIHandler creates unlinked objects: no authority involved;
     # FileNodeDownloadHandler is only reachable with GET/HEAD)
